@@ -7,6 +7,7 @@ def main(tier, replay=None):
     if replay:
         return vk_replay("C01", replay)
     res = Result("C01", tier, "fault_enumeration")
+    nconf = vk_conformance(tier)   # the model is compared with the real kernel before anything is concluded from it
     rd = rundir("C01")
     vk_build()
     src = scratch_build(rd, "plain")
@@ -24,4 +25,5 @@ def main(tier, replay=None):
     res.assumptions = ["virtual kernel semantics (DESIGN.md appendix A), bound to Linux by vk/conformance",
                        "crash model of conf-qmail: directory operations synchronous, file data since last fsync may be lost per file, single writes not torn"]
     res.require_nonzero("evaluations", "machine_crashes", "process_kills", "faults_injected", "states_committed", "states_S3_leftover", "exits_success", "exits_failure")
+    res.notes.append("virtual kernel vs Linux: %d operation sequences compared before this run, all agree (bin/conformance)" % nconf)
     return res.finish()
